@@ -6,6 +6,7 @@ import (
 	"runtime"
 	"strings"
 	"testing"
+	"unicode"
 	"unicode/utf8"
 
 	"pgregory.net/rapid"
@@ -231,6 +232,22 @@ func TestC04_Seed(t *testing.T) {
 			{M: text(strings.Repeat("\u00c5ngstr\u00f6m ", 40)), P: text(strings.Repeat("\ufb01", 70))},
 			{M: "a\u0307\u0323", P: "a\u0323\u0307"},
 		}
+		// sentences typed without their diacritics (and in NFC): the seed is the seed of the string as
+		// typed, whatever list words it resembles
+		for _, l := range []ref.Lang{ref.Spanish, ref.French, ref.Japanese, ref.Korean, ref.Czech} {
+			for k := 0; k < 3; k++ {
+				idx := gen.ExtremeIndices(l, ref.Counts[(k+int(l))%5], k%2 == 0, k*5)
+				var marked []int
+				for i := 0; i < 2048 && len(marked) < len(idx); i += 7 + k {
+					if w := ref.Golden(l)[i]; ref.NFKD(w) != stripMarks(w) {
+						marked = append(marked, i)
+					}
+				}
+				copy(idx, marked)
+				canonical := strings.Join(ref.Words(l, idx), " ")
+				fixed = append(fixed, seedCase{M: text(stripMarks(canonical)), P: "TREZOR"}, seedCase{M: text(gen.Forms["NFC"].String(canonical)), P: ""})
+			}
+		}
 		for i := range fixed {
 			fixed[i].Shape = "fixed"
 			c04Record(&fixed[i])
@@ -258,4 +275,15 @@ func TestC04_Seed(t *testing.T) {
 		}
 		judgeH(rt, "c04.seed", c04Check, c, gen.Lang().Draw(rt, "history-around"))
 	})
+}
+
+// stripMarks removes the combining marks of the NFKD form (a sentence typed without diacritics).
+func stripMarks(s string) string {
+	var b strings.Builder
+	for _, r := range ref.NFKD(s) {
+		if !unicode.Is(unicode.Mn, r) {
+			b.WriteRune(r)
+		}
+	}
+	return b.String()
 }
